@@ -130,7 +130,19 @@ def collect_blocks(body):
 def template(body, auto=False):
     body = list(body)
     pre = annotate(body)
-    return {"body": body, "auto": auto, "blocks": collect_blocks(body), "pre": pre}
+    names = sorted({n["n"] for n in walk(body) if n.get("k") == "name" and "exp" not in n}
+                   | {n["ns"] for n in walk(body) if n.get("k") == "nsattr"})
+    refs = set()
+    for n in walk(body):
+        if n.get("k") in ("extends", "include", "import", "fromimport"):
+            e = n["e"]
+            if e["k"] == "const" and e["v"]["t"] == "str":
+                refs.add(seg_text(e["v"]["s"]))
+            elif e["k"] == "list" and all(x["k"] == "const" and x["v"]["t"] == "str" for x in e["items"]):
+                refs.update(seg_text(x["v"]["s"]) for x in e["items"])
+            else:
+                refs.add("?")
+    return {"body": body, "auto": auto, "blocks": collect_blocks(body), "pre": pre, "names": names, "refs": sorted(refs)}
 
 
 # ---------------------------------------------------------------------------
